@@ -95,6 +95,35 @@ func VerifHarness_C12_WhiteToWhite() {
 	}
 }
 
+// VerifHarness_C12_SharedCoordinate: the same obligations for pairs of white points that
+// share their x (or their y) chromaticity exactly - a measure-zero family on which an
+// equality shortcut in the code would fire.
+func VerifHarness_C12_SharedCoordinate() {
+	wa, _ := verifWhite()
+	other := verifF32()
+	verifAssume(verifAnd(other >= 0.2, other <= 0.5))
+	var wb ciexyy.Color
+	if verifChoice(2) == 0 {
+		wb = ciexyy.Color{X: wa.X, Y: other, YY: 1}
+	} else {
+		wb = ciexyy.Color{X: other, Y: wa.Y, YY: 1}
+	}
+	rb := verifCone(float64(wb.X)/float64(wb.Y), 1, (1-float64(wb.X)-float64(wb.Y))/float64(wb.Y))
+	verifAssume(verifAnd(rb[0] >= 0.15, verifAnd(rb[1] >= 0.15, rb[2] >= 0.15)))
+	ad := AdaptBetweenXYYWhitePoints(wa, wb)
+	verifReach("adapted-shared")
+	xa, xb := ColorFromXYY(wa), ColorFromXYY(wb)
+	got := matrix.Matrix3(ad).MulV(xa.ToV())
+	verifAssert(verifNear(got[0], float64(xb.X), 1e-6), "shared coordinate: A->B does not map white A to white B (X)")
+	verifAssert(verifNear(got[2], float64(xb.Z), 1e-6), "shared coordinate: A->B does not map white A to white B (Z)")
+	same := AdaptBetweenXYZWhitePoints(xa, xb)
+	for r := 0; r < 3; r++ {
+		for c := 0; c < 3; c++ {
+			verifAssert(verifA(matrix.Matrix3(same), r, c) == verifA(matrix.Matrix3(ad), r, c), "shared coordinate: xyY and XYZ constructors give different adaptations")
+		}
+	}
+}
+
 // VerifHarness_C12_Linear: Apply is the matrix-vector product of the adaptation matrix
 // (hence linear), up to the final conversion to float32.
 func VerifHarness_C12_Linear() {
